@@ -44,7 +44,31 @@ pub fn prefilter_patterns(rng: &mut Rng) -> (Vec<Vec<u8>>, bool) {
     let common = b"etaoin srhl";
     let rare_pool = [b'z', b'Q', b'@', 0x00, b'~', b'X', b'#', 0xFF, b'j'];
     let mut pats: Vec<Vec<u8>> = vec![];
-    match rng.below(9) {
+    match rng.below(10) {
+        9 => {
+            // one or two COMMON first bytes, every pattern with a rare byte of
+            // its own behind it: the rare-byte analysis runs out of budget
+            // (more than 3 rare bytes, or a pattern of 256 bytes or more)
+            // while a start-byte prefilter stays possible - what is learnt
+            // from the patterns that follow must still be learnt
+            let k = rng.range(1, 2);
+            let firsts: Vec<u8> = (0..k).map(|_| *rng.pick(b"etaoin")).collect();
+            let mut rares = b"qzxjQZXJ@#~".to_vec();
+            rng.shuffle(&mut rares);
+            for i in 0..rng.range(4, 8) {
+                let mut p = vec![*rng.pick(&firsts), rares[i]];
+                let n = rng.range(0, 2);
+                p.extend(gen::rand_string(rng, common, n));
+                pats.push(p);
+            }
+            if rng.chance(1, 3) {
+                let mut p = vec![firsts[0]];
+                let n = rng.range(255, 300);
+                p.extend(gen::rand_string(rng, common, n));
+                let at = rng.below(pats.len() + 1);
+                pats.insert(at, p);
+            }
+        }
         0 => {
             // single pattern -> memmem
             let n = rng.range(1, 12);
@@ -233,7 +257,18 @@ pub fn run_c05(ctx: &Ctx, rep: &mut Report) {
             }
             (p, rng.chance(1, 2))
         } else {
-            prefilter_patterns(&mut rng)
+            let (mut pats, ci) = prefilter_patterns(&mut rng);
+            // the empty pattern, which rules a prefilter out wherever it stands
+            // in the list (one list in six; last, first or anywhere)
+            if rng.chance(1, 6) {
+                let at = match rng.below(3) {
+                    0 => pats.len(),
+                    1 => 0,
+                    _ => rng.below(pats.len() + 1),
+                };
+                pats.insert(at, vec![]);
+            }
+            (pats, ci)
         };
         for &kind in &Kind::ALL {
             let imp = *rng.pick(&Imp::ALL);
@@ -246,6 +281,9 @@ pub fn run_c05(ctx: &Ctx, rep: &mut Report) {
                 dense_depth: *rng.pick(&[None, Some(0), Some(3)]),
                 byte_classes: rng.chance(3, 4),
             };
+                if pats.iter().any(|p| p.is_empty()) {
+                rep.tally("lists_with_the_empty_pattern");
+            }
             let variant = base.prefilter_variant(&pats);
             let on = match build_or_report(rep, &base, &pats) {
                 Some(s) => Built { cfg: base, s },
@@ -940,17 +978,30 @@ impl ReplCase {
     }
 }
 
-fn splice_bytes(hay: &[u8], ms: &[M], repl: &[String], stop_at: Option<usize>, marker: bool) -> Vec<u8> {
+/// What the closure of the `_with` variants does with its output buffer.
+#[derive(Clone, Copy, PartialEq, Debug)]
+enum Appends {
+    /// the registered replacement, nothing else (it may be empty)
+    Bare,
+    /// "<k:" + replacement + ">": always something, and distinct per call
+    Marked,
+    /// nothing at all: the match is deleted
+    Nothing,
+}
+
+fn splice_bytes(hay: &[u8], ms: &[M], repl: &[String], stop_at: Option<usize>, how: Appends) -> Vec<u8> {
     let mut out = vec![];
     let mut last = 0;
     for (k, &(p, s, e)) in ms.iter().enumerate() {
         out.extend_from_slice(&hay[last..s]);
         last = e;
-        if marker {
+        if how == Appends::Marked {
             out.extend_from_slice(format!("<{}:", k).as_bytes());
         }
-        out.extend_from_slice(repl[p].as_bytes());
-        if marker {
+        if how != Appends::Nothing {
+            out.extend_from_slice(repl[p].as_bytes());
+        }
+        if how == Appends::Marked {
             out.push(b'>');
         }
         if stop_at == Some(k) {
@@ -1002,7 +1053,7 @@ pub fn c12_check_one(rep: &mut Report, c: &ReplCase, s: &S) {
     }
     // --- replace_all_bytes (table)
     {
-        let exp = splice_bytes(hay, &ms, &c.repl, None, false);
+        let exp = splice_bytes(hay, &ms, &c.repl, None, Appends::Bare);
         let got = guard(|| on!(a => a.try_replace_all_bytes(hay, &c.repl).map_err(|e| e.to_string())));
         rep.eval();
         match got {
@@ -1014,7 +1065,7 @@ pub fn c12_check_one(rep: &mut Report, c: &ReplCase, s: &S) {
     }
     // --- replace_all (&str, table)
     {
-        let exp = splice_bytes(hay, &str_ms, &c.repl, None, false);
+        let exp = splice_bytes(hay, &str_ms, &c.repl, None, Appends::Bare);
         let got = guard(|| on!(a => a.try_replace_all(&c.hay, &c.repl).map_err(|e| e.to_string())));
         rep.eval();
         match got {
@@ -1029,18 +1080,38 @@ pub fn c12_check_one(rep: &mut Report, c: &ReplCase, s: &S) {
             }
         }
     }
+    // What the closures append varies with the case: the property speaks of
+    // "what the closure appends", which may be nothing (also in the call that
+    // returns false: then the match is deleted and the remainder, from the end
+    // of that match, is copied).
+    let how = match h.get() % 4 {
+        0 | 1 => Appends::Marked,
+        2 => Appends::Bare,
+        _ => Appends::Nothing,
+    };
+    rep.tally(match how {
+        Appends::Marked => "closures_appending_markers",
+        Appends::Bare => "closures_appending_the_bare_replacement",
+        Appends::Nothing => "closures_appending_nothing",
+    });
     // --- replace_all_with_bytes (closure; may stop early)
     {
-        let exp = splice_bytes(hay, &ms, &c.repl, c.stop_at, true);
+        let exp = splice_bytes(hay, &ms, &c.repl, c.stop_at, how);
         let mut calls: Vec<(M, Vec<u8>)> = vec![];
         let got = guard(|| {
             let mut dst = b"PRE|".to_vec();
             let mut k = 0usize;
             let r = on!(a => a.try_replace_all_with_bytes(hay, &mut dst, |m, bytes, dst| {
                 calls.push((crate::cfg::mm(*m), bytes.to_vec()));
-                dst.extend_from_slice(format!("<{}:", k).as_bytes());
-                dst.extend_from_slice(c.repl[m.pattern().as_usize()].as_bytes());
-                dst.push(b'>');
+                if how == Appends::Marked {
+                    dst.extend_from_slice(format!("<{}:", k).as_bytes());
+                }
+                if how != Appends::Nothing {
+                    dst.extend_from_slice(c.repl[m.pattern().as_usize()].as_bytes());
+                }
+                if how == Appends::Marked {
+                    dst.push(b'>');
+                }
                 let go = c.stop_at != Some(k);
                 k += 1;
                 go
@@ -1067,22 +1138,32 @@ pub fn c12_check_one(rep: &mut Report, c: &ReplCase, s: &S) {
                 }
                 if c.stop_at.map_or(false, |k| k < ms.len()) {
                     rep.tally("closure_stopped_early");
+                    let k = c.stop_at.unwrap();
+                    if how == Appends::Nothing || (how == Appends::Bare && c.repl[ms[k].0].is_empty()) {
+                        rep.tally("closure_stopped_without_appending");
+                    }
                 }
             }
         }
     }
     // --- replace_all_with (&str closure)
     {
-        let exp = splice_bytes(hay, &str_ms, &c.repl, c.stop_at, true);
+        let exp = splice_bytes(hay, &str_ms, &c.repl, c.stop_at, how);
         let mut calls: Vec<(M, String)> = vec![];
         let got = guard(|| {
             let mut dst = String::from("PRE|");
             let mut k = 0usize;
             let r = on!(a => a.try_replace_all_with(&c.hay, &mut dst, |m, text, dst| {
                 calls.push((crate::cfg::mm(*m), text.to_string()));
-                dst.push_str(&format!("<{}:", k));
-                dst.push_str(&c.repl[m.pattern().as_usize()]);
-                dst.push('>');
+                if how == Appends::Marked {
+                    dst.push_str(&format!("<{}:", k));
+                }
+                if how != Appends::Nothing {
+                    dst.push_str(&c.repl[m.pattern().as_usize()]);
+                }
+                if how == Appends::Marked {
+                    dst.push('>');
+                }
                 let go = c.stop_at != Some(k);
                 k += 1;
                 go
